@@ -271,14 +271,13 @@ theorem msgFollowUp_ok (d : DefaultDS) (pid : PortId) (seq ts minor : Nat) (m : 
 
 theorem msgDelayResp_ok (req : Header) (pid : PortId) (delayLog : Int) (ts : Nat) (m : Msg)
     (h : msgDelayResp req pid delayLog ts = .ok m) :
-    ∃ corr w, tivAdd req.correction (timeSubnano ts) = some corr ∧ timeToWire ts = some w ∧
-      m = { header := { req with flags := { req.flags with twoStep := false }, src := pid, correction := corr,
-                                 logInterval := delayLog },
+    ∃ w, timeToWire ts = some w ∧
+      m = { header := { req with flags := { req.flags with twoStep := false }, src := pid,
+                                 correction := clampI64 (req.correction + timeSubnano ts), logInterval := delayLog },
             body := .delayResp w req.src, suffix := [] } := by
   unfold msgDelayResp at h
-  obtain ⟨c, hc, h1⟩ := bindR_ok _ _ _ h
-  obtain ⟨w, hw, h2⟩ := bindR_ok _ _ _ h1
-  exact ⟨c, w, (liftOv_ok _ _).1 hc, (liftOv_ok _ _).1 hw, (Except.ok.inj h2).symm⟩
+  obtain ⟨w, hw, h2⟩ := bindR_ok _ _ _ h
+  exact ⟨w, (liftOv_ok _ _).1 hw, (Except.ok.inj h2).symm⟩
 
 theorem msgPdelayResp_ok (d : DefaultDS) (pid : PortId) (req : Header) (ts minor : Nat) (m : Msg)
     (h : msgPdelayResp d pid req ts minor = .ok m) :
@@ -484,7 +483,7 @@ theorem handleDelayReq_frames (p p' : Port) (s : InstState) (hd : Header) (ts : 
     (hdom : hd.domain = s.dflt.domain) (hsdo : hd.sdoId = s.dflt.sdoId)
     (h : p.handleDelayReq hd ts = .ok (p', outs)) : Frames p s p' outs := by
   rcases handleDelayReq_shape p p' hd ts outs h with ⟨_, hp, m, hm, ho⟩ | ⟨_, hp, ho⟩
-  · obtain ⟨c, w, _, _, hmm⟩ := msgDelayResp_ok _ _ _ _ _ hm
+  · obtain ⟨w, _, hmm⟩ := msgDelayResp_ok _ _ _ _ _ hm
     rw [ho, hp]
     exact frames_one p p s [] (.sendGeneral (encode m) false) m (by intro x hx; cases hx) rfl
       (by rw [hmm]) (by rw [hmm]; exact hdom) (by rw [hmm]; exact hsdo) (by rw [hmm]; intro n hn; cases hn)
